@@ -56,6 +56,7 @@ class Split:
 
 
 UNIT = ("unit",)
+SEQ = ("buf", "list")
 
 
 def lit(v):
@@ -87,11 +88,13 @@ def common_prefix(a, b):
 
 
 class Interp:
-    def __init__(self, unit, box_builders=None):
+    def __init__(self, unit, box_builders=None, sink_helper=None):
         self.u = unit
         self.hir = unit.hir
         self.loopn = 0
         self.depth = 0
+        self.sink_helper = sink_helper     # def path of the counted sink writer (file productions)
+        self.struct_fns = {}
         self.box_builders = box_builders if box_builders is not None else self.find_box_builders()
         self.trace = []
 
@@ -183,9 +186,11 @@ class Interp:
             return a
         if c == ("bool", False):
             return b
-        if a[0] == "buf" and b[0] == "buf":
+        if a[0] in SEQ and b[0] == a[0]:
             n = common_prefix(a[1], b[1])
-            return ("buf", a[1][:n] + [("alt", c, a[1][n:], b[1][n:])])
+            return (a[0], a[1][:n] + [("alt", c, a[1][n:], b[1][n:])])
+        if a[0] == "tuple" and b[0] == "tuple" and len(a[1]) == len(b[1]):
+            return ("tuple", [self.if_value(c, x, y) for x, y in zip(a[1], b[1])])
         return ("if", c, a, b)
 
     def merge_env(self, c, e1, e2):
@@ -195,11 +200,19 @@ class Interp:
                 out[k] = self.if_value(c, e1[k], e2[k])
         return out
 
+    def is_err_leaf(self, tree):
+        return isinstance(tree, Leaf) and tree.status == "ret" and tree.value[0] == "err"
+
     def collapse_env(self, tree, allowed=("fall", "cont")):
         if isinstance(tree, Leaf):
             if tree.status not in allowed:
                 raise Unanalysable("loop body leaves with `%s`" % tree.status)
             return tree.env
+        # error propagation out of a loop body / branch: production is stated for the successful run
+        if self.is_err_leaf(tree.t):
+            return self.collapse_env(tree.f, allowed)
+        if self.is_err_leaf(tree.f):
+            return self.collapse_env(tree.t, allowed)
         return self.merge_env(tree.cond, self.collapse_env(tree.t, allowed), self.collapse_env(tree.f, allowed))
 
     # ------------------------------------------------------------------------------------
@@ -214,6 +227,8 @@ class Interp:
         elif k == "ref":
             self.bind(pat["p"], v, env)
         elif k == "tuple":
+            if v[0] == "matchv" and all(x[1][0] == "tuple" for x in v[2]):
+                v = self.match_value(v[1], list(v[2]))
             for i, p in enumerate(pat["ps"]):
                 if v[0] == "tuple" and i < len(v[1]):
                     self.bind(p, v[1][i], env)
@@ -328,7 +343,23 @@ class Interp:
         if k == "match":
             if e.get("src", "").startswith("ForLoopDesugar"):
                 return self.exec_for(e, env)
+            if e.get("src", "").startswith("TryDesugar"):
+                inner = e["scrut"]["args"][0]
+                t = self.exec_expr_tree(inner, env)
+
+                def after(t):
+                    if isinstance(t, Leaf):
+                        if t.status == "fall":
+                            return Leaf("fall", self.okval(t.value), t.env)
+                        return t
+                    return Split(t.cond, after(t.t), after(t.f))
+                return after(t)
             return self.exec_match(e, env)
+        if k == "call" and self.sink_helper and e["f"].get("k") == "path" and (e["f"].get("callee") or e["f"].get("def")) == self.sink_helper:
+            arg = self.ev(e["args"][-1], env)
+            cur = env.get("$file", ("buf", []))
+            env["$file"] = ("buf", cur[1] + self.bytes_of(arg))
+            return Leaf("fall", ("sinkok",), env)
         if k == "loop":
             raise Unanalysable("`loop`/`while` at line %s" % e["sp"][0])
         if k == "mcall" and self.is_buf_mutation(e, env):
@@ -348,6 +379,23 @@ class Interp:
             return Leaf("fall", UNIT, env)
         # plain expression
         return Leaf("fall", self.ev(e, env), env)
+
+    def okval(self, v):
+        """value of `v?` on the success path"""
+        if v[0] == "sinkok":
+            return UNIT
+        x = v
+        if x[0] == "mcall" and x[1].split("::")[-1] in ("ok_or_else", "ok_or", "map_err"):
+            x = x[2]
+        if x[0] == "mcall" and x[1].endswith("checked_add") and x[3]:
+            return fold_bin("Add", x[2], x[3][0])
+        if x[0] == "mcall" and x[1].endswith("checked_sub") and x[3]:
+            return fold_bin("Sub", x[2], x[3][0])
+        if x[0] == "mcall" and x[1].endswith("checked_mul") and x[3]:
+            return fold_bin("Mul", x[2], x[3][0])
+        if x is not v:
+            return ("unwrapped", x)
+        return ("okval", v)
 
     def exec_assign(self, e, env):
         l = e["l"]
@@ -405,6 +453,15 @@ class Interp:
 
     def exec_match(self, e, env):
         scrut = self.ev(e["scrut"], env)
+        if scrut[0] == "ctor":
+            for a in e["arms"]:
+                pd = a["pat"]
+                while pd["k"] == "ref":
+                    pd = pd["p"]
+                if pd.get("def") == scrut[1] and "guard" not in a:
+                    en = env
+                    self.bind(a["pat"], scrut, en)
+                    return self.exec_expr_tree(a["body"], en)
         arms = []
         for a in e["arms"]:
             en = dict(env)
@@ -422,23 +479,38 @@ class Interp:
                 vs = [en.get(k_) for en in envs]
                 if all(v == vs[0] for v in vs):
                     merged[k_] = vs[0]
-                elif all(v and v[0] == "buf" for v in vs):
+                elif all(v and v[0] in SEQ and v[0] == vs[0][0] for v in vs):
                     n = min(common_prefix(vs[0][1], v[1]) for v in vs)
-                    merged[k_] = ("buf", vs[0][1][:n] + [("match", scrut, [(p, v[1][n:]) for (p, _), v in zip(arms, vs)])])
+                    merged[k_] = (vs[0][0], vs[0][1][:n] + [("match", scrut, [(p, v[1][n:]) for (p, _), v in zip(arms, vs)])])
                 else:
                     merged[k_] = ("matchv", scrut, tuple((p, v) for (p, _), v in zip(arms, vs)))
             env.clear()
             env.update(merged)
-            if all(v[0] == "buf" for v in vals):
-                return Leaf("fall", ("buf", [("match", scrut, [(p, v[1]) for (p, _), v in zip(arms, vals)])]), env)
             if all(v == vals[0] for v in vals):
                 return Leaf("fall", vals[0], env)
-            return Leaf("fall", ("matchv", scrut, tuple((p, v) for (p, _), v in zip(arms, vals))), env)
+            return Leaf("fall", self.match_value(scrut, [(p, v) for (p, _), v in zip(arms, vals)]), env)
         # arms with early exits: nest as splits
         tree = arms[-1][1]
         for (p, t) in reversed(arms[:-1]):
             tree = Split(("is", scrut, p), t, tree)
         return tree
+
+    def match_value(self, scrut, pv):
+        vals = [v for _, v in pv]
+        if all(v[0] in SEQ and v[0] == vals[0][0] for v in vals):
+            return (vals[0][0], [("match", scrut, [(p, v[1]) for p, v in pv])])
+        if all(v[0] == "tuple" and len(v[1]) == len(vals[0][1]) for v in vals):
+            return ("tuple", [self.match_value(scrut, [(p, v[1][i]) for p, v in pv]) for i in range(len(vals[0][1]))])
+        # statically decidable scrutinee (Some/None)
+        if scrut[0] == "some":
+            for p, v in pv:
+                if p.endswith("Some"):
+                    return v
+        if scrut[0] == "none":
+            for p, v in pv:
+                if p.endswith("None"):
+                    return v
+        return ("matchv", scrut, tuple(pv))
 
     def exec_for(self, e, env):
         """`for PAT in COLL { BODY }` (HIR desugaring: match into_iter(COLL) { mut iter => loop { match next(&mut iter) {None=>break, Some(PAT)=>BODY} } })"""
@@ -468,6 +540,8 @@ class Interp:
                     return Leaf("fall", UNIT, en)
                 tree = self.map_fall(tree, step)
             return tree
+        if coll[0] == "list":
+            return self.exec_for_list(coll, pat, body, env)
         self.loopn += 1
         lid = "L%d" % self.loopn
         base, enumerated = coll, False
@@ -479,24 +553,132 @@ class Interp:
         if enumerated:
             elem = ("tuple", [("idx", base, lid), ("elem", base, lid)])
         en = dict(env)
-        before = {k_: v for k_, v in env.items() if v[0] == "buf"}
-        # buffers start empty inside the body so that what is appended per iteration is visible
-        for k_ in before:
-            en[k_] = ("buf", [])
-        scal_before = {k_: v for k_, v in env.items() if v[0] != "buf"}
+        before = {k_: v for k_, v in env.items() if v[0] in SEQ}
+        # sequences start empty inside the body so that what is appended per iteration is visible
+        for k_, v in before.items():
+            en[k_] = (v[0], [])
+        assigned = self.assigned_locals(body)
+        scal_before = {k_: v for k_, v in env.items() if v[0] not in SEQ and k_ in assigned}
+        for k_ in scal_before:
+            en[k_] = ("acc", k_, lid)        # value at the start of an iteration
         self.bind(pat, elem, en)
         t = self.exec_expr_tree(body, en)
         en2 = self.collapse_env(t)
         for k_, v in before.items():
-            app = en2.get(k_, ("buf", []))
-            if app[0] != "buf":
-                raise Unanalysable("buffer rebound inside loop")
+            app = en2.get(k_, (v[0], []))
+            if app[0] != v[0]:
+                raise Unanalysable("sequence rebound inside loop")
             if app[1]:
-                env[k_] = ("buf", v[1] + [("rep", base, lid, app[1])])
+                env[k_] = (v[0], v[1] + [("rep", base, lid, app[1])])
         for k_, v in scal_before.items():
-            if k_ in en2 and en2[k_] != v:
-                env[k_] = ("loopvar", k_, base, lid, en2[k_])
+            if k_ in en2 and en2[k_] != ("acc", k_, lid):
+                step = en2[k_]
+                # recognise sums: acc + g(elem)
+                if step[0] == "bin" and step[1] == "Add" and step[2] == ("acc", k_, lid):
+                    env[k_] = ("sum", v, base, lid, step[3])
+                else:
+                    env[k_] = ("fold", v, base, lid, step)
+            else:
+                env[k_] = v
         return Leaf("fall", UNIT, env)
+
+    def exec_for_list(self, coll, pat, body, env):
+        """iterate a *known* list value: the body is instantiated per list item, mirroring the list's structure
+        (repetitions, permuted loops, alternatives); a sorted list yields a `perm` wrapper"""
+        segs = coll[1]
+        self.loopn += 1
+        lid = "P%d" % self.loopn
+        seqs = {k_: v for k_, v in env.items() if v[0] in SEQ}
+        assigned = self.assigned_locals(body)
+        scal = {k_: v for k_, v in env.items() if v[0] not in SEQ and k_ in assigned}
+
+        def run_item(x):
+            en = dict(env)
+            for k_, v in seqs.items():
+                en[k_] = (v[0], [])
+            for k_ in scal:
+                en[k_] = ("acc", k_, lid)
+            self.bind(pat, x, en)
+            t = self.exec_expr_tree(body, en)
+            en2 = self.collapse_env(t)
+            app = {k_: list(en2.get(k_, (v[0], []))[1]) for k_, v in seqs.items()}
+            steps = {k_: [("step", en2[k_])] if (k_ in en2 and en2[k_] != ("acc", k_, lid)) else [] for k_ in scal}
+            return app, steps
+
+        def empty():
+            return {k_: [] for k_ in seqs}, {k_: [] for k_ in scal}
+
+        def add(dst, src):
+            for k_ in dst[0]:
+                dst[0][k_] += src[0][k_]
+            for k_ in dst[1]:
+                dst[1][k_] += src[1][k_]
+
+        def wrap(res, mk):
+            return ({k_: ([mk(v)] if v else []) for k_, v in res[0].items()}, {k_: ([mk(v)] if v else []) for k_, v in res[1].items()})
+
+        def inst(sgs):
+            out = empty()
+            for sg in sgs:
+                h = sg[0]
+                if h == "item":
+                    add(out, run_item(sg[1]))
+                elif h == "rep":
+                    add(out, wrap(inst(sg[3]), lambda v, sg=sg: ("rep", sg[1], sg[2], v)))
+                elif h == "perm":
+                    add(out, wrap(inst(sg[2]), lambda v, sg=sg: ("perm", sg[1], v)))
+                elif h == "ploop":
+                    parts = [inst([p] if p[0] == "rep" else p[1]) for p in sg[3]]
+                    res = empty()
+                    for k_ in res[0]:
+                        pk = [("part", pr[0][k_]) for pr in parts]
+                        if any(x[1] for x in pk):
+                            res[0][k_] = [("ploop", sg[1], sg[2], pk)]
+                    for k_ in res[1]:
+                        pk = [("part", pr[1][k_]) for pr in parts]
+                        if any(x[1] for x in pk):
+                            res[1][k_] = [("ploop", sg[1], sg[2], pk)]
+                    add(out, res)
+                elif h == "alt":
+                    a_, b_ = inst(sg[2]), inst(sg[3])
+                    res = empty()
+                    for i_ in (0, 1):
+                        for k_ in res[i_]:
+                            if a_[i_][k_] or b_[i_][k_]:
+                                res[i_][k_] = [("alt", sg[1], a_[i_][k_], b_[i_][k_])]
+                    add(out, res)
+                elif h == "match":
+                    arms = [(p_, inst(x)) for p_, x in sg[2]]
+                    res = empty()
+                    for i_ in (0, 1):
+                        for k_ in res[i_]:
+                            if any(r[i_][k_] for _, r in arms):
+                                res[i_][k_] = [("match", sg[1], [(p_, r[i_][k_]) for p_, r in arms])]
+                    add(out, res)
+                else:
+                    raise Unanalysable("iteration over a list part of shape %s" % h)
+            return out
+        app, steps = inst(segs)
+        for k_, v in seqs.items():
+            if app[k_]:
+                env[k_] = (v[0], v[1] + app[k_])
+        for k_, v in scal.items():
+            if steps[k_]:
+                env[k_] = ("pacc", v, lid, tuple(freeze(steps[k_])))
+        return Leaf("fall", UNIT, env)
+
+    def assigned_locals(self, e, out=None):
+        if out is None:
+            out = set()
+        if isinstance(e, dict):
+            if e.get("k") in ("assign", "assignop") and e["l"].get("k") == "path" and e["l"].get("res") == "local":
+                out.add(e["l"]["id"])
+            for v in e.values():
+                self.assigned_locals(v, out)
+        elif isinstance(e, list):
+            for v in e:
+                self.assigned_locals(v, out)
+        return out
 
     # ------------------------------------------------------------------------------------
     MUTATORS = ("std::vec::Vec::extend_from_slice", "std::vec::Vec::push")
@@ -505,15 +687,15 @@ class Interp:
         r = e["recv"]
         while r["k"] in ("addrof", "droptemps"):
             r = r["a"]
-        if r["k"] == "path" and r.get("res") == "local" and env.get(r["id"], ("x",))[0] == "buf":
+        if r["k"] == "path" and r.get("res") == "local" and env.get(r["id"], ("x",))[0] in SEQ:
             name = strip_generics(e.get("callee") or e.get("decl") or "")
             if name in self.MUTATORS:
                 return True
-            ty = r.get("ty", "")
-            # any other &mut method on a tracked buffer
-            if name.split("::")[-1] in ("extend", "insert", "truncate", "clear", "resize", "append", "drain", "remove", "pop",
-                                        "splice", "retain", "swap", "reverse", "sort", "copy_from_slice", "fill", "iter_mut", "as_mut_slice"):
-                raise Unanalysable("unsupported mutation `%s` of a tracked buffer at line %s" % (name, e["sp"][0]))
+            if name.split("::")[-1] in ("sort_by_key", "sort_by", "sort", "sort_unstable_by_key") and env[r["id"]][0] == "list":
+                return True
+            # any other method that takes the tracked sequence by `&mut` is not understood: fail closed
+            if r.get("aty", "").startswith("&mut") or e["recv"].get("aty", "").startswith("&mut") or (e["recv"]["k"] == "addrof" and e["recv"].get("mut")):
+                raise Unanalysable("unsupported mutation `%s` of a tracked sequence at line %s" % (name, e["sp"][0]))
         return False
 
     def exec_mutation(self, e, env):
@@ -524,7 +706,15 @@ class Interp:
         name = strip_generics(e.get("callee") or e.get("decl"))
         arg = self.ev(e["args"][0], env)
         cur = env[vid]
-        if name.endswith("extend_from_slice"):
+        if cur[0] == "list":
+            if name.split("::")[-1] in ("sort_by_key", "sort_by", "sort", "sort_unstable_by_key"):
+                key = self.closure_key(arg) if arg[0] == "closure" else ("?",)
+                env[vid] = ("list", [("perm", key, cur[1])])
+                return Leaf("fall", UNIT, env)
+            if not name.endswith("::push"):
+                raise Unanalysable("unsupported list mutation " + name)
+            env[vid] = ("list", cur[1] + [("item", arg)])
+        elif name.endswith("extend_from_slice"):
             env[vid] = ("buf", cur[1] + self.bytes_of(arg))
         else:
             if arg[0] == "lit":
@@ -532,6 +722,19 @@ class Interp:
             else:
                 env[vid] = ("buf", cur[1] + [("u8", arg)])
         return Leaf("fall", UNIT, env)
+
+    def closure_key(self, clo):
+        """the key expression of a sort_by_key closure over the element pattern"""
+        ce, cenv = clo[1], dict(clo[2])
+        self.loopn += 1
+        lid = "K%d" % self.loopn
+        for p in ce["params"]:
+            self.bind(p, ("keyelem", lid), cenv)
+        try:
+            t = self.exec_expr_tree(ce["body"], cenv)
+            return ("key", lid, self.collapse_value(t))
+        except Unanalysable as ex:
+            return ("key", lid, ("?", str(ex)))
 
     def bytes_of(self, v):
         if v[0] == "buf":
@@ -599,7 +802,10 @@ class Interp:
                 return b[1][int(e["name"])]
             return ("field", b, e["name"])
         if k == "index":
-            return ("index", self.ev(e["base"], env), self.ev(e["idx"], env))
+            b, i = self.ev(e["base"], env), self.ev(e["idx"], env)
+            if i[0] == "idx" and i[1] == b:
+                return ("elem", b, i[2])
+            return ("index", b, i)
         if k == "tup":
             return ("tuple", [self.ev(x, env) for x in e["es"]])
         if k == "array":
@@ -666,19 +872,28 @@ class Interp:
         if fv[0] == "ctor":
             if fv[1].endswith("::Some"):
                 return ("some", args[0])
+            if fv[1].endswith("::Err"):
+                return ("err", args[0] if args else UNIT)
+            if fv[1].endswith("::Ok"):
+                return ("okres", args[0] if args else UNIT)
             return ("ctor", fv[1], tuple(args))
         if fv[0] != "def":
             return ("callv", fv, tuple(args))
         name = fv[1]
         sname = strip_generics(name)
-        if sname in ("std::vec::Vec::new", "std::vec::Vec::with_capacity") and e["ty"] in BYTEVEC:
-            return ("buf", [])
+        if sname in ("std::vec::Vec::new", "std::vec::Vec::with_capacity"):
+            if e["ty"] in BYTEVEC:
+                return ("buf", [])
+            if e["ty"].startswith("std::vec::Vec<"):
+                return ("list", [])
         if sname.endswith("box_assume_init_into_vec_unsafe") or sname.endswith("slice::into_vec"):
             arr = self.find_array(e)
             if arr is not None:
                 v = self.ev(arr, env)
                 if v[0] == "buf":
                     return v
+                if v[0] == "array" and e["ty"].startswith("std::vec::Vec<"):
+                    return ("list", [("item", x) for x in v[1]])
                 return ("array", v[1]) if v[0] == "array" else v
         if sname == "std::vec::from_elem":
             if e["ty"] in BYTEVEC and args[0][0] == "lit" and args[1][0] == "lit":
@@ -689,7 +904,45 @@ class Interp:
             return ("buf", [("box", self.bytes_of(args[0]), self.bytes_of(args[1]))])
         if name in self.hir and self.is_producer(name):
             return ("buf", self.production(name, args))
+        if name in self.hir and name in self.struct_fns:
+            return self.call_value(name, args)
         return ("call", sname, tuple(args))
+
+    def call_value(self, path, args):
+        """inline a local (non-producer) function and return its value"""
+        h = self.hir[path]
+        env = {}
+        for i, p in enumerate(h["params"]):
+            self.bind(p["pat"], args[i] if i < len(args) else ("param", "_%d" % i), env)
+        self.depth += 1
+        if self.depth > 40:
+            raise Unanalysable("inlining too deep at " + path)
+        try:
+            tree = self.exec_expr_tree(h["body"], env)
+            return self.collapse_value(tree)
+        finally:
+            self.depth -= 1
+
+    def file_production(self, path):
+        """production of the bytes handed to the sink helper by local function `path`, per successful exit:
+        list of (conditions, segs)"""
+        h = self.hir[path]
+        env = {"$file": ("buf", [])}
+        for i, p in enumerate(h["params"]):
+            self.bind(p["pat"], ("param", p["pat"].get("name", "_%d" % i)), env)
+        tree = self.exec_expr_tree(h["body"], env)
+        out = []
+
+        def rec(t, conds):
+            if isinstance(t, Leaf):
+                if t.status == "ret" and t.value[0] == "err":
+                    return
+                out.append((conds, t.env.get("$file", ("buf", []))[1], t.value))
+                return
+            rec(t.t, conds + (("if", t.cond),))
+            rec(t.f, conds + (("ifnot", t.cond),))
+        rec(tree, ())
+        return out
 
     def find_array(self, e):
         if isinstance(e, dict):
@@ -720,6 +973,8 @@ class Interp:
                 raise Unanalysable("to_be_bytes on " + ty)
             return ("buf", [("be" if m == "to_be_bytes" else "le", recv, w)])
         if m == "len":
+            if recv[0] == "list":
+                return ("len", ("listval", freeze(recv[1])))
             if recv[0] == "buf":
                 w = width(recv[1])
                 if w.is_const():
@@ -736,6 +991,12 @@ class Interp:
             if w.is_const():
                 return ("bool", w.const == 0)
             return ("empty", ("bufval", tuple(recv[1])))
+        if m in ("is_some", "is_none") and recv[0] in ("some", "none"):
+            return ("bool", (recv[0] == "some") == (m == "is_some"))
+        if m in ("unwrap", "expect") and e["recv"]["ty"].lstrip("&").startswith("std::option::Option<"):
+            if recv[0] == "some":
+                return recv[1]
+            return ("payload", recv, "Some", 0)
         if m == "unwrap_or" and recv[0] == "some":
             return recv[1]
         if m == "unwrap_or" and recv[0] == "none":
@@ -744,6 +1005,8 @@ class Interp:
             return ("mcall", sname, recv, (self.closure_summary(args[0], recv),))
         if name in self.hir and self.is_producer(name):
             return ("buf", self.production(name, [recv] + args))
+        if name in self.hir and name in self.struct_fns:
+            return self.call_value(name, [recv] + args)
         return ("mcall", sname, recv, tuple(args))
 
     def closure_summary(self, clo, recv):
@@ -832,6 +1095,19 @@ def seg_width(s):
         if all(w == ws[0] for w in ws):
             return ws[0]
         return Lin(0, {("matchw", freeze(s[1]), freeze(s[2])): 1})
+    if k == "item":
+        return Lin(1)
+    if k == "perm":
+        return width(s[2])
+    if k == "ploop":
+        w = Lin()
+        for p in s[3]:
+            w = w + (seg_width(p) if p[0] == "rep" else width(p[1]))
+        return w
+    if k == "part":
+        return width(s[1])
+    if k == "step":
+        return Lin(0)
     if k == "rep":
         b = width(s[3])
         if b.is_const():
@@ -893,6 +1169,24 @@ def show(x, depth=0):
         return "match(%s){%s}" % (show(x[1]), "; ".join("%s=>[%s]" % (p.split("::")[-1], ", ".join(show(s) for s in sg)) for p, sg in x[2]))
     if h == "rep":
         return "rep(%s){%s}" % (show(x[1]), ", ".join(show(s) for s in x[3]))
+    if h == "ploop":
+        return "ploop%s[%s]" % ("<sorted>" if x[2] else "", " ++ ".join(show(p) if p[0] == "rep" else "[%s]" % ", ".join(show(q) for q in p[1]) for p in x[3]))
+    if h == "perm":
+        return "sorted(%s)[%s]" % (show(x[1]), ", ".join(show(q) for q in x[2]))
+    if h == "item":
+        return "item(%s)" % show(x[1])
+    if h == "acc":
+        return "acc:%s" % str(x[1]).split("#")[0]
+    if h == "pacc":
+        return "pacc(%s; %s)" % (show(x[1]), ", ".join(show(st) for st in x[3]))
+    if h == "step":
+        return "step(%s)" % show(x[1])
+    if h == "part":
+        return "[%s]" % ", ".join(show(q) for q in x[1])
+    if h == "sum":
+        return "(%s + sum(%s, %s))" % (show(x[1]), show(x[2]), show(x[4]))
+    if h == "list":
+        return "list[%s]" % ", ".join(show(s) for s in x[1])
     if h == "mcall":
         return "%s.%s(%s)" % (show(x[2]), x[1].split("::")[-1], ", ".join(show(a) for a in x[3]))
     if h == "call":
@@ -966,6 +1260,10 @@ def norm_segs(segs):
             s = ("match", s[1], [(p, norm_segs(sg)) for p, sg in s[2]])
         elif k == "rep":
             s = ("rep", s[1], s[2], norm_segs(s[3]))
+        elif k == "ploop":
+            s = ("ploop", s[1], s[2], [("rep", p[1], p[2], norm_segs(p[3])) if p[0] == "rep" else ("part", norm_segs(p[1])) for p in s[3]])
+        elif k == "perm":
+            s = ("perm", s[1], norm_segs(s[2]))
         if k == "c" and out and out[-1][0] == "c":
             out[-1] = ("c", out[-1][1] + s[1])
         elif k == "c" and not s[1]:
